@@ -327,6 +327,8 @@ class X12LoopDataNode(X12DataNode):
         if seg_data is None:
             raise errors.X12PathError('X12 Path is invalid or was not found: %s' % (x12_path_str))
         xpath = path.X12Path(new_path)
+        if xpath.ele_idx is None:
+            raise errors.X12PathError('X12 Path has no element index: %s' % (x12_path_str))
         xpath.loop_list = []
         xpath.id_val = None
         seg_part = xpath.format()
@@ -636,8 +638,8 @@ class X12SegmentDataNode(X12DataNode):
         seg_data = self.get_first_matching_segment(x12_path_str)
         if seg_data is None:
             raise errors.X12PathError('X12 Path is invalid or was not found: %s' % (x12_path_str))
-        #ele_idx = self.get_ele_idx(x12_path_str)
-        #seg_data.set(ele_idx, val)
+        if path.X12Path(x12_path_str).ele_idx is None:
+            raise errors.X12PathError('X12 Path has no element index: %s' % (x12_path_str))
         seg_data.set(x12_path_str, val)
 
     def get_first_matching_segment(self, x12_path_str):
